@@ -210,7 +210,15 @@ func blackBox(ctx context.Context, out *vh.Out, rng *vh.Rng, thorough bool) {
 			k := mkChain(nil, 2)
 			b.GetChainByInstance(ctx, inst, freshKey(k))
 			publishC(chainexchange.Message{Instance: inst, Chain: k, Timestamp: nowMs()})
-			time.Sleep(100 * time.Millisecond)
+			// wait until the solicited chain has really been delivered (pubsub may take long, or drop it, on a
+			// loaded machine); a chain that never arrived cannot be "not retained"
+			pre := false
+			for dl := time.Now().Add(15 * time.Second); time.Now().Before(dl); time.Sleep(5 * time.Millisecond) {
+				if _, ok := b.GetChainByInstance(ctx, inst, freshKey(k)); ok {
+					pre = true
+					break
+				}
+			}
 			var last *gpbft.ECChain
 			for i := 0; i < capD+3; i++ {
 				last = mkChain(nil, 1)
@@ -223,7 +231,7 @@ func blackBox(ctx context.Context, out *vh.Out, rng *vh.Rng, thorough bool) {
 				res = "hit"
 				kok = freshKey(got) == freshKey(k)
 			}
-			out.Line("bb flood asked=%s kok=%d last=%d key=%s", res, b2i(kok), lf, w.chainStr(k))
+			out.Line("bb flood asked=%s kok=%d last=%d key=%s pre=%d", res, b2i(kok), lf, w.chainStr(k), b2i(pre))
 		}
 	}
 	_ = fmt.Sprint
